@@ -144,7 +144,82 @@ pub fn hand_reduce(prob: &Prob, eff: &Effective) -> Prob {
         b,
         cones,
         kind: prob.kind.clone(),
+        planted: None,
     }
+}
+
+/// strict membership (with a relative margin) in a cone or its dual
+pub fn strictly_inside(cone: &ConeSpec, v: &[f64], dual: bool, margin: f64) -> bool {
+    let scale = norm_inf(v).max(1e-300);
+    match cone {
+        ConeSpec::Zero(_) => {
+            if dual {
+                true
+            } else {
+                v.iter().all(|x| x.abs() <= margin * scale)
+            }
+        }
+        ConeSpec::Nonneg(_) => v.iter().all(|x| *x > margin * scale),
+        ConeSpec::Soc(_) => v[0] - norm2(&v[1..]) > margin * scale,
+        ConeSpec::Exp => {
+            if !dual {
+                v[1] > margin * scale && v[2] > margin * scale && v[1] * (v[2] / v[1]).ln() - v[0] > margin * scale
+            } else {
+                v[0] < -margin * scale
+                    && v[2] > margin * scale
+                    && v[1] - v[0] - v[0] * (-v[2] / v[0]).ln() > margin * scale
+            }
+        }
+        ConeSpec::Pow(a) => {
+            if !(v[0] > margin * scale && v[1] > margin * scale) {
+                return false;
+            }
+            let bound = if !dual {
+                v[0].powf(*a) * v[1].powf(1.0 - a)
+            } else {
+                (v[0] / a).powf(*a) * (v[1] / (1.0 - a)).powf(1.0 - a)
+            };
+            bound - v[2].abs() > margin * scale
+        }
+        ConeSpec::GenPow(alpha, _) => {
+            let d1 = alpha.len();
+            if !v[..d1].iter().all(|x| *x > margin * scale) {
+                return false;
+            }
+            let mut bound = 1.0;
+            for (x, a) in v[..d1].iter().zip(alpha) {
+                bound *= if !dual { x.powf(*a) } else { (x / a).powf(*a) };
+            }
+            bound - norm2(&v[d1..]) > margin * scale
+        }
+    }
+}
+
+/// is (xp, xd, z0) a strictly feasible primal point / dual point for this data?
+pub fn planted_ok(prob: &Prob, xp: &[f64], xd: &[f64], z0: &[f64]) -> bool {
+    let (ax, _) = mul(&prob.a, xp);
+    let s: Vec<f64> = (0..prob.m).map(|i| prob.b[i] - ax[i]).collect();
+    let mut row = 0;
+    for c in &prob.cones {
+        let d = c.dim();
+        if !strictly_inside(c, &s[row..row + d], false, 1e-6) {
+            return false;
+        }
+        if !strictly_inside(c, &z0[row..row + d], true, 1e-6) {
+            return false;
+        }
+        row += d;
+    }
+    let (px, pabs) = symmul(&prob.p_triu, xd);
+    let (atz, aabs) = mul_t(&prob.a, z0);
+    for j in 0..prob.n {
+        let r = px[j] + atz[j] + prob.q[j];
+        let sc = pabs[j] + aabs[j] + prob.q[j].abs();
+        if r.abs() > 1e-9 * sc.max(1e-300) {
+            return false;
+        }
+    }
+    true
 }
 
 #[derive(Clone, Debug)]
